@@ -3,6 +3,8 @@ import Deb822Verif.Model.DebAccess
 import Deb822Verif.Model.DebLossy
 import Deb822Verif.Model.RelParse
 import Deb822Verif.Model.Pgp
+import Deb822Verif.Driver.Codec
+import Deb822Verif.Driver.Rel
 /-! C02: acceptance class of each modelled text entry point; `*` for entry points the model does
     not cover (their totality is exercised on the real code only). -/
 namespace Deb822Verif.Driver.Total
@@ -13,6 +15,40 @@ def cls (b : Bool) : String := if b then "ok" else "err"
 def isOk {ε α} : Except ε α → Bool
   | .ok _ => true
   | .error _ => false
+
+/-- entry point -> (codec type name of `Driver/Codec`, text passed twice?) -/
+def codecEntry : String → Option (String × Bool)
+  | "f.priority" => some ("Priority", false)
+  | "f.multiarch" => some ("MultiArch", false)
+  | "f.urgency" => some ("Urgency", false)
+  | "f.md5" => some ("Md5Checksum", false)
+  | "f.sha1" => some ("Sha1Checksum", false)
+  | "f.sha256" => some ("Sha256Checksum", false)
+  | "f.sha512" => some ("Sha512Checksum", false)
+  | "f.pkglist" => some ("PackageListEntry", false)
+  | "f.vc" => some ("VersionConstraint", false)
+  | "f.profile" => some ("BuildProfile", false)
+  | "ctl.changesfile" => some ("File", false)
+  | "vcs.parsed" => some ("ParsedVcs", false)
+  | "vcs.git" => some ("Vcs", false)
+  | "vcs.svn" => some ("Vcs", false)
+  | "vcs.other" => some ("Vcs", true)
+  | "identity" => some ("Identity", false)
+  | "cpr.license" => some ("License", false)
+  | "dep3.forwarded" => some ("Forwarded", false)
+  | "dep3.origincat" => some ("OriginCategory", false)
+  | "dep3.origin" => some ("Origin", false)
+  | "dep3.applied" => some ("AppliedUpstream", false)
+  | "apt.type" => some ("RepositoryType", false)
+  | "apt.ynf" => some ("YesNoForce", false)
+  | "apt.signature" => some ("Signature", false)
+  | _ => none
+
+/-- fixed leading arguments of the codec request -/
+def pre : String → List String
+  | "vcs.git" => [encStr "Git".toList]
+  | "vcs.svn" => [encStr "Svn".toList]
+  | _ => []
 
 def entryClass (entry : String) (s : Str) : String :=
   match entry with
@@ -27,7 +63,17 @@ def entryClass (entry : String) (s : Str) : String :=
   | "rel.entry" => cls (isOk (Rel.readEntry s))
   | "rel.relation" => cls (isOk (Rel.readRelation s))
   | "pgp.strip" => cls (isOk (Pgp.strip s))
-  | _ => "*"
+  | "lrel.relations" => cls (isOk (Rel.Lossy.readRelations s))
+  | "lrel.relation" => cls (isOk (Rel.Lossy.readRelation s))
+  | _ =>
+    -- typed field values: acceptance class of the C18 codec models (`Driver/Codec.handleParse`)
+    match codecEntry entry with
+    | some (ty, twice) =>
+      let t := encStr s
+      (match Codec.handleParse ty (if twice then [t, t] else pre entry ++ [t]) with
+       | some r => if r.startsWith "ok" then "ok" else "err"
+       | none => "*")
+    | none => "*"
 
 def handle (op : String) (args : List String) : Option String :=
   match op, args with
